@@ -4,6 +4,22 @@ import json, os
 V = '/verif'
 CHECKS = {
  # id: (engine, category, technique, level text, level note, design ref)
+ 'C02': ('icmc', 'model_checking',
+         'explicit-state BFS over IBTP block histories on the real executor in lock-step with a reference model',
+         'All block histories up to depth 4 (thorough 5) over 13-25 block kinds (requests/receipts with next/duplicate/future/zero/huge/unknown index on 3 ordered pairs, mixed packing, unrelated txs, direct calls of every public interchain-contract method by an outsider), audit off and on; after every block every receipt verdict, both-side counters, index records and delivery sets are compared with the model.',
+         'memkv for goleveldb; all proofs valid (C03 covers proofs); 3 service pairs', '5 C02'),
+ 'C04': ('icmc', 'model_checking',
+         'explicit-state BFS over request/receipt/timeout block histories on the real executor against the protocol FSM',
+         'All block histories up to depth 4 (thorough 6) of requests (T=0/1/2, available or blacklisting destination), receipts success/failure/rollback (also after a final state, also in the request/expiry block), empty blocks, reopen; stored status of every id and every receipt verdict compared with the FSM of the statement after each block.',
+         'memkv for goleveldb; inter-BitXHub notices not in the alphabet yet', '5 C04'),
+ 'C06': ('icmc', 'model_checking',
+         'explicit-state BFS over block histories with timeouts on the real executor against an expiry model',
+         'All block histories up to depth 5 (thorough 7) of requests with T in {0,1,2,(3,huge,-1)}, receipts before/in/after the expiry block, shared expiry heights, begin-failed requests, reopen between H and H+T; per block the timeout notifications and all statuses are compared with the model.',
+         'memkv for goleveldb; one-to-many groups are covered by C05', '5 C06'),
+ 'C09': ('chainmc', 'model_checking',
+         'explicit-state BFS over block/rollback/re-execute/reopen histories on the real executor+ledger with full index re-derivation',
+         'All histories up to depth 4 (thorough 6) of block kinds (empty, transfers, interchain, mixed with failing tx, duplicate-looking txs), rollback to head..head-3, re-delivery of the head block, a different block for an existing height, reopen; after every state all heights 1..head, hash links, Merkle roots over stored txs/receipts, every lookup index and the chain meta are re-derived; nothing of removed blocks may resolve.',
+         'memkv for goleveldb, real blockfile on tmpfs; identical transaction objects in two blocks are outside consensus guarantees and not explored', '5 C09'),
  'C10': ('enum', 'model_checking',
          'bounded-exhaustive enumeration of write sets x permutations x read patterns x residency on the real StateLedger',
          'Every set of <=3 (thorough <=4) writes over 8 targets is executed in every order, read pattern and residency (cache, reopened, purged) on the real SimpleLedger: equal write sets must give equal roots, change sets differing in one item and equal changes on different previous roots must give different roots; tx/receipt Merkle roots likewise for every permutation and single-field perturbation.',
@@ -46,6 +62,8 @@ def main():
         },
         'engines': [
             {'name': 'ledgermc', 'path': 'harness/checks/sl.go', 'serves_properties': ['C12', 'C13'], 'kind_free_text': 'explicit-state BFS (state = history, replay on fresh instance) over real StateLedger'},
+            {'name': 'icmc', 'path': 'harness/checks/ic.go', 'serves_properties': ['C02', 'C04', 'C06'], 'kind_free_text': 'explicit-state BFS over block histories of the real executor stepped with a reference model'},
+            {'name': 'chainmc', 'path': 'harness/checks/c09.go', 'serves_properties': ['C09'], 'kind_free_text': 'explicit-state BFS over chain histories'},
             {'name': 'enum', 'path': 'harness/checks/c10.go', 'serves_properties': ['C10'], 'kind_free_text': 'bounded-exhaustive enumeration'},
         ],
         'checks': checks,
